@@ -393,7 +393,14 @@ func genScanDFA(c *ctx) {
 		}
 		for _, cn := range conds {
 			if _, ok := condIDs[cn]; !ok {
-				condIDs[cn] = len(condNames)
+				// fixed codes: the executable scanner model (Model/Scan.lean) evaluates the conditions by code
+				code, known := map[string]int{"lex.isNotPhpCloseToken()": 0, "lex.isNotNewLine()": 1, "lex.isNotHeredocEnd(lex.p)": 2,
+					"lex.isNotStringVar()": 3, "lex.isNotStringEnd('`')": 4, "lex.isNotStringEnd('\"')": 5}[cn]
+				if !known {
+					c.fail(comp, sg.pos, "state %d: condition %s is not one the scanner model knows", sn, cn)
+					code = 100 + len(condNames)
+				}
+				condIDs[cn] = code
 				condNames = append(condNames, cn)
 			}
 		}
@@ -714,6 +721,7 @@ func genScanDFA(c *ctx) {
 	fmt.Fprintf(&b, "/-- action blocks that run the new_line action -/\ndef newlineActions : List Nat := [%s].flatten\n", strings.Join(nlGroups, ", "))
 	b.WriteString("\nend PhpVerif.Gen\n")
 	writeIfChanged(filepath.Join(c.out, "ScanDFA.lean"), b.String())
+	genScanCode(c, segs, tokCode, lexFn)
 	// side data for the runner / evidence
 	nstates := len(rows)
 	c.side["scandfa"] = map[string]interface{}{"states": nstates, "rows": nrows, "conditions": condNames, "action_blocks": len(trs), "newline_action_blocks": len(nl)}
